@@ -142,6 +142,12 @@ EXTERNALS = {
     "std::mem::MaybeUninit::assume_init_drop": M("core::mem::maybe_uninit: drops in place", user=True, writes=True),
     "std::mem::MaybeUninit::assume_init_read": M("core::mem::maybe_uninit: bitwise copy-out"),
     "std::mem::MaybeUninit::write": M("core::mem::maybe_uninit", writes=True),
+    "std::mem::ManuallyDrop::take": M("core::mem: bitwise copy-out"),
+    "std::mem::ManuallyDrop::drop": M("core::mem: drops in place", user=True, writes=True),
+    "std::ptr::read_unaligned": M("core::ptr: bitwise copy-out"),
+    "std::ptr::read_volatile": M("core::ptr: bitwise copy-out"),
+    "std::ptr::mut_ptr::<impl *mut T>::read": M("core::ptr: bitwise copy-out"),
+    "std::ptr::const_ptr::<impl *const T>::read": M("core::ptr: bitwise copy-out"),
     "<I as std::iter::IntoIterator>::into_iter": M("core::iter: identity for iterators"),
     "std::iter::Iterator::by_ref": M("core::iter: returns self"),
     "<&mut I as std::iter::Iterator>::next": M("core::iter: (**self).next()", user=False),
